@@ -187,8 +187,12 @@ def passthrough_and_product(repo, rep):
                             return True
             return False
         if cw:
-            kws = {k.arg: unparse(k.value) for k in cw[0].keywords}
-            okcw = kws.get("dm", "").endswith(".dmf") and kws.get("dspr", "").endswith(".dsprf") and dir_is_axis(kws.get("dir")) and "under_90" not in kws
+            from ..astutil import bound_args
+            b_ = bound_args(repo, fi, cw[0]) or {}
+            kws = {k_: unparse(v_) for k_, v_ in b_.items()}
+            u90 = b_.get("under_90")
+            okcw = kws.get("dm", "").endswith(".dmf") and kws.get("dspr", "").endswith(".dsprf") and dir_is_axis(kws.get("dir")) and \
+                (u90 is None or repo.const(fi.module, u90) is False)
         spread_name = None
         for s in ast.walk(g):
             if isinstance(s, ast.Assign) and isinstance(s.value, ast.Call) and call_name(s.value) == "cartwright":
